@@ -443,6 +443,8 @@ def tasks(tier):
     t += [('contracts.c07_resp', 'task_get_responses', {})]
     from . import c14
     t += [('contracts.c14', 'task_map', dict(cls=c)) for c in c14.MAPS]        # chain factor (dependency closure)
+    # dependency closure: the reported misfit and the adjoint sources use the same data weights (Simulation contracts of C12, re-run here)
+    t += [('contracts.c12', 'task_op', dict(op='misfit')), ('contracts.c12', 'task_op', dict(op='gradient'))]
     return t
 
 
